@@ -84,6 +84,9 @@ pub enum Fin {
     Ok,
     Err,
     Panic,
+    /// the callback works on its guards first (methods called in place, stashed ones moved out), then panics:
+    /// the guards that are left are dropped by the unwinding
+    LatePanic,
 }
 
 #[derive(Debug, Clone, PartialEq, Eq)]
@@ -284,6 +287,7 @@ fn parse_round(s: &str) -> Option<Round> {
         "ok" => Fin::Ok,
         "err" => Fin::Err,
         "panic" => Fin::Panic,
+        "lpanic" => Fin::LatePanic,
         _ => return None,
     };
     let mut acts = Vec::new();
@@ -299,6 +303,9 @@ fn parse_round(s: &str) -> Option<Round> {
                 acts.push(Act::Set(nat(v)?));
             }
         }
+    }
+    if fin == Fin::LatePanic && recount {
+        return None;
     }
     Some(Round { acts, recount, fin })
 }
@@ -405,6 +412,7 @@ impl fmt::Display for Round {
             Fin::Ok => write!(f, "ok"),
             Fin::Err => write!(f, "err"),
             Fin::Panic => write!(f, "panic"),
+            Fin::LatePanic => write!(f, "lpanic"),
         }
     }
 }
